@@ -7,7 +7,7 @@ from haiway import ctx
 
 from harness.decoys import decoyed
 from harness.legs import cfg_text, gen_traces, leg_apalache, leg_m, leg_mutant, leg_r, leg_t_gen
-from harness.vloop import Falsy, VClock, VLoop
+from harness.vloop import swallowed_cancel, Falsy, VClock, VLoop
 
 SPEC = "Retry"
 MANIFEST = dict(
@@ -200,6 +200,8 @@ class RetryDriver:
                         got = ("exc", e)
                 else:
                     async def outer():
+                        if len(script) % 2 == 0 and not cancel_in_pause:
+                            await swallowed_cancel()      # the caller is a task that swallowed a cancellation earlier
                         try:
                             async with ctx.scope("retrying %s"):
                                 try:
